@@ -11,8 +11,8 @@ def correspond(ctx):
                          "canonicalised) and the returned is_passed array vs the Lean model"
                          " + a handful of deterministic medium / LARGE instances per family (graphs.big_graphs: 40, 70 and 258..319 vertices -- vertex ids beyond CPython's small-int cache, more than 32 / 64 vertices --, boards up to 16x17); about half of the Graph objects are observed part-way through construction (accessors read, every graph constraint posted once on a throw-away Solver) before the remaining edges are added")
     graphcorr.run_cases(ctx, graphcorr.case_cycle, ctx.n(300, 4000), "cycle", with_ids=True, native_sets=True,
-                        bigs=graphcorr.graph_bigs() + graphcorr.graph_bigs("sparse"))
-    graphcorr.run_cases(ctx, graphcorr.case_path, ctx.n(200, 3000), "path", with_ids=True, native_sets=True, bigs=graphcorr.graph_bigs("sparse"))
+                        bigs=graphcorr.graph_bigs() + graphcorr.graph_bigs("sparse") + graphcorr.medium_bigs())
+    graphcorr.run_cases(ctx, graphcorr.case_path, ctx.n(200, 3000), "path", with_ids=True, native_sets=True, bigs=graphcorr.graph_bigs("sparse") + [b for b in graphcorr.medium_bigs("rotate") if b[1] <= 60])   # (the model's line graph is cubic in the number of edges)
     graphcorr.run_cases(ctx, graphcorr.case_frame_cycle, ctx.n(60, 600), "frame", with_ids=True, native_sets=True, bigs=graphcorr.frame_bigs())
     if not ctx.quick():
         for f in search(ctx, None, budget=40):
